@@ -75,9 +75,9 @@ PROP = {
                 H("c16_hops_from_path_i3", "B", bound="exactly 3 interfaces", what="hop extraction shape, first hop ingress 0 / last hop egress 0", timeout=1200),
                 H("c16_hops_from_path_i4", "B", bound="exactly 4 interfaces", what="hop extraction shape, first hop ingress 0 / last hop egress 0", timeout=1200),
                 H("c16_hop_pred_parse_n6", "B", bound="ASCII strings <= 6 bytes", what="HopPredicate::from_str total + alphabet", timeout=1800),
-                H("c16_hop_pred_display_parse_b", "B", tier="thorough", bound="numeric fields < 10 (printed form <= 8 bytes), full structure alphabet",
+                H("c16_hop_pred_display_parse_b", "B", tier="experimental", bound="numeric fields < 10 (printed form <= 8 bytes), full structure alphabet",
                   what="HopPredicate Display . parse", timeout=3600),
-                H("c16_hop_pred_parse_n8", "B", tier="thorough", bound="ASCII strings <= 8 bytes", what="HopPredicate::from_str total + alphabet", timeout=3600),
+                H("c16_hop_pred_parse_n8", "B", tier="experimental", bound="ASCII strings <= 8 bytes", what="HopPredicate::from_str total + alphabet", timeout=3600),
             ],
         },
         {
@@ -90,7 +90,7 @@ PROP = {
             "functions": ["HopPatternExpression::match_from", "HopPatternExpression::all_nested_matches",
                           "HopPatternPolicy::matches"],
             "harnesses": [
-                H("c16_hp_shape_%s" % sh, "B", tier="thorough", bound="depth-1 shape `%s`, symbolic leaves, <= 3 hops" % txt,
+                H("c16_hp_shape_%s" % sh, "B", tier="experimental", bound="depth-1 shape `%s`, symbolic leaves, <= 3 hops" % txt,
                   what="match_from == { q | hops[p..q] in L(e) } and HopPatternPolicy([e]).matches == (hops in L(e))", timeout=600)
                 for sh, txt in [("leaf", "a"), ("opt", "a?"), ("plus", "a+"), ("star", "a*"), ("or", "a|b")]
             ],
